@@ -873,7 +873,7 @@ PROPS["C20"] = dict(
 
 PROPS["C16"] = dict(
     lean_targets=["SJ.Props.C16", "SJ.Props.C16Float", "SJ.Props.C16Ap", "SJ.Props.C16ApFloat", "SJ.Props.Typed", "SJ.Audit.C16"],
-    configs=dict(quick=["d", "fr"], thorough=["d", "fr", "po", "ap"]),
+    configs=dict(quick=["d", "fr", "ap"], thorough=["d", "fr", "po", "ap"]),
     gen_keys=["fromvalue."],
     rule="(schema, value) pairs for the universal DeserializeSeed of harness/src/schema.rs, each run through from_value (Value by value), "
          "&Value and from_str(to_string(value)) followed by end(): a fixed corpus (every leaf target and every leaf under Option / newtype / "
